@@ -9,6 +9,7 @@ mod worker;
 mod c12;
 mod c13;
 mod c15;
+mod c16;
 mod c17;
 mod c19;
 mod zeep;
@@ -46,6 +47,7 @@ fn run(id: &str, tier: Tier) -> i32 {
         "C12" => c12::run(tier),
         "C13" => c13::run(tier),
         "C15" => c15::run(tier),
+        "C16" => c16::run(tier),
         "C17" => c17::run(tier),
         "C19" => c19::run(tier),
         _ => {
@@ -64,6 +66,7 @@ fn replay(file: &str) -> i32 {
         "C12" => c12::replay(&v["case"]),
         "C13" => c13::replay(&v["case"]),
         "C15" => c15::replay(&v["case"]),
+        "C16" => c16::replay(&v["case"]),
         "C17" => c17::replay(&v["case"]),
         "C19" => c19::replay(&v["case"]),
         p => {
